@@ -166,6 +166,12 @@ package iso7816
 //@   ensures "session-keys-kept": old(typeis(sm, "*iso7816.SecureMessaging") && validSM(as(sm, "*iso7816.SecureMessaging"))) ==> typeis(sm, "*iso7816.SecureMessaging") && validSM(as(sm, "*iso7816.SecureMessaging")) && as(sm, "*iso7816.SecureMessaging").alg == old(as(sm, "*iso7816.SecureMessaging").alg)
 //@        && as(sm, "*iso7816.SecureMessaging").ksEnc === old(as(sm, "*iso7816.SecureMessaging").ksEnc) && as(sm, "*iso7816.SecureMessaging").ksMac === old(as(sm, "*iso7816.SecureMessaging").ksMac)
 //@   assigns content(sm)
+//@ func (sm SecureMessenger) KsEnc() (result []byte)
+//@   trusted
+//@   requires sm != nil
+//@   ensures typeis(sm, "*iso7816.SecureMessaging") ==> result === as(sm, "*iso7816.SecureMessaging").ksEnc
+//@   ensures fresh(result)
+//@   assigns nothing
 // The transport is external: any byte string may come back; it does not write to the caller's buffers.
 //@ func (t Transceiver) Transceive
 //@   trusted
